@@ -18,11 +18,14 @@ from .common import parallel_map
 RULE = ("cases = (table text, flavor, setup types): tables of 1-8 items (commands, if / else-if / else chains of up to 5 "
         "branches with 0-3 commands each, conditions of depth <= 3 over FLAVOR/TYPE with == != && || and parentheses), "
         "rendered with random indentation, blank lines, comments, letter case of command names and keywords, "
-        "quoting styles, separators and trailing semicolons; legacy tables (Group:/Flavor=/Common:/End: and runs "
-        "of Flavor= lines); a malformed stream (lines dropped, duplicated, inserted; wrong arity); each table is "
-        "evaluated for every flavor it mentions plus an unmentioned one, with TYPE absent / one / two types.  A case "
-        "is non-trivial when its table has a conditional chain, a legacy group or a quoted argument; distinct = "
-        "distinct (text, flavor, types) digests")
+        "quoting styles (incl. empty, blank-only and comma-terminated quoted arguments, escaped quotes), separators and "
+        "trailing semicolons; legacy tables (Group:/Flavor=/Common:/End: and runs of Flavor= lines); a malformed stream "
+        "(lines dropped, duplicated, inserted; wrong arity; operators outside the property's grammar); every condition "
+        "also on its own through VersionParser; exhaustive small enumerations (all chain shapes of <= 3 branches with "
+        "empty / non-empty branches and else; all conditions of depth <= 1, thorough: <= 2, over 2 flavors x 2 types); each "
+        "table is evaluated for every flavor it mentions plus an unmentioned one, with TYPE absent / one / two types.  "
+        "A case is non-trivial when its table has a conditional chain, a legacy group or a quoted argument, or is an "
+        "enumerated condition batch; distinct = distinct (text, flavor, types) digests")
 TRUSTED = ["CPython `re` on the patterns of table.py / VersionParser.py (hand-translated to list functions in the model; "
            "exercised against the real `re` through the code on every run, not verified)",
            "table texts are ASCII without `\\r`, control characters 1-3 and 28-31; conditions contain no `$`"]
@@ -147,6 +150,11 @@ def gen_arg(rng, allow_escape=True):
         inner = 'say "%s" now' % rng.choice(PLAIN)
     else:
         inner = rng.choice(PLAIN)
+    r2 = rng.random()
+    if r2 < 0.06:
+        inner = inner + rng.choice([",", ", ", " "])         # a value that ends with a comma / a blank
+    elif r2 < 0.09:
+        inner = rng.choice(["", "\t", " ", "  "])              # empty, or nothing but white space
     return {"v": inner, "q": True}
 
 
@@ -279,6 +287,8 @@ COMMENTS = ["# a comment", "#", "# setupRequired(nothing)", "#} else {", "# if (
 
 
 def render_table(rng, items, features):
+    """Returns the rendered lines of every item (a list of lists), layout chosen at random."""
+    parts = []
     lines = []
 
     def emit(s, comment_ok=True):
@@ -301,8 +311,10 @@ def render_table(rng, items, features):
         return word.upper() if r < 0.95 else word.capitalize()
 
     for it in items:
+        lines = []
         if it["k"] == "cmd":
             emit(render_cmd(rng, it["c"]))
+            parts.append(lines)
             continue
         for i, br in enumerate(it["branches"]):
             head = kw("if") + sp(rng) + "(" + sp(rng) + render_cond(rng, br["cond"]) + sp(rng) + ")" + sp(rng) + "{"
@@ -316,7 +328,12 @@ def render_table(rng, items, features):
             for c in it["els"]:
                 emit(render_cmd(rng, c))
         emit("}")
-    return "\n".join(lines) + rng.choice(["\n", "\n", ""])
+        parts.append(lines)
+    return parts
+
+
+def join_parts(parts, end="\n"):
+    return "\n".join(l for p in parts for l in p) + end
 
 
 def table_features(items):
@@ -341,6 +358,10 @@ def table_features(items):
                 f.add("first_and_last_quoted")
             if len(c["args"]) == 1 and c["args"][0]["q"]:
                 f.add("whole_list_quoted")
+            if any(a["q"] and a["v"][-1:] in (",", " ") and len(a["v"]) > 1 for a in c["args"]):
+                f.add("quoted_ends_comma_or_blank")
+            if any(a["q"] and a["v"].strip(" \t") == "" for a in c["args"]):
+                f.add("quoted_empty_or_blank")
     return f
 
 
@@ -443,6 +464,7 @@ def malform(rng, text):
 def gen_case(rng):
     r = rng.random()
     features = set()
+    parts = None
     if r < 0.12:
         text, items, style = gen_legacy(rng)
         features |= table_features(items) | {"legacy", "legacy_" + style}
@@ -450,19 +472,65 @@ def gen_case(rng):
     else:
         items = gen_table(rng)
         features |= table_features(items)
-        text = render_table(rng, items, features)
+        plines = render_table(rng, items, features)
+        text = join_parts(plines, rng.choice(["\n", "\n", ""]))
         kind = "table"
+        parts = []
+        for it, ls in zip(items, plines):
+            cs = [{"text": render_cond(rng, b["cond"]), "ast": b["cond"]} for b in it["branches"]] if it["k"] == "chain" else []
+            parts.append({"lines": ls, "item": it, "conds": cs})
     envs = gen_envs(rng, items)
     conds = []
-    if kind == "table":
-        for e in conds_of(items)[:6]:
-            ctext = render_cond(rng, e)
-            conds.append({"text": ctext, "expect": [denote_cond(e, v["flavor"], v["types"]) for v in envs]})
+    if parts:
+        for c in [c for p_ in parts for c in p_["conds"]][:6]:
+            conds.append({"text": c["text"], "expect": [denote_cond(c["ast"], v["flavor"], v["types"]) for v in envs]})
     expect = [denote_table(items, v["flavor"], v["types"]) for v in envs]
     if r >= 0.88:
         text = malform(rng, text)
-        kind, expect, features = "malformed", None, features | {"malformed"}
-    return {"kind": kind, "text": text, "envs": envs, "expect": expect, "conds": conds, "features": sorted(features)}
+        kind, expect, features, parts = "malformed", None, features | {"malformed"}, None
+    case = {"kind": kind, "text": text, "envs": envs, "expect": expect, "conds": conds, "features": sorted(features)}
+    if parts:
+        case["parts"] = parts
+    return case
+
+
+def sub_case(case, parts, envs):
+    """The case restricted to some of its items and environments (layout of the kept items unchanged)."""
+    items = [p_["item"] for p_ in parts]
+    conds = [{"text": c["text"], "expect": [denote_cond(c["ast"], v["flavor"], v["types"]) for v in envs]}
+             for p_ in parts for c in p_["conds"]][:6]
+    return {"kind": case["kind"], "text": join_parts([p_["lines"] for p_ in parts]), "envs": envs,
+            "expect": [denote_table(items, v["flavor"], v["types"]) for v in envs], "conds": conds,
+            "features": sorted(table_features(items) | (set(case["features"]) & {"trailing_comment", "keyword_case"})),
+            "parts": parts}
+
+
+def shrink(case, clause):
+    """Delta-debug the failing case over its items, then its environments, keeping a failure of the same clause."""
+    if not case.get("parts"):
+        return case
+
+    def fails(parts, envs):
+        if not parts:
+            return False
+        c = sub_case(case, parts, envs)
+        return any(cl == clause for cl, _k, _i, _d in oracle(c, run_impl(c)))
+    envs = case["envs"]
+    parts = case["parts"]
+    if not fails(parts, envs):
+        if _scratch is not None:
+            common.rmtree(_scratch)
+        return case                      # the failure needs the original end-of-file layout: keep as is
+    for v in envs:
+        if fails(parts, [v]):
+            envs = [v]
+            break
+    parts = common.ddmin(parts, lambda ps: fails(ps, envs), max_tests=60)
+    out = sub_case(case, parts, envs)
+    out["shrunk_from_items"] = len(case["parts"])
+    if _scratch is not None:
+        common.rmtree(_scratch)
+    return out
 
 
 # ---- implementation ----------------------------------------------------------------------------------
@@ -544,7 +612,7 @@ def _variant():
     if not _VARIANT:
         return None
     have = set() if _VARIANT == "pinned" else set(_VARIANT.split(","))
-    return {k: (k in have) for k in ("d3", "d4", "d20", "d31")}
+    return {k: (k in have) for k in ("d3", "d4", "d20", "d31", "d32", "d33")}
 
 
 def model_requests(case):
@@ -594,6 +662,8 @@ def classify(case, i, got, want):
         return "blocks_no_error"
     if [(a["cmd"], a["extra"]) for a in got] == [(a["cmd"], a["extra"]) for a in want]:
         return "args"
+    if [(a["cmd"], a["args"]) for a in got] == [(a["cmd"], a["args"]) for a in want]:
+        return "command_kind"           # append/prepend, required/optional
     return "blocks"
 
 
@@ -631,7 +701,10 @@ def corpus_cases():
 
 
 def public(case):
-    return {k: case[k] for k in ("kind", "text", "envs", "expect", "conds", "features")}
+    return {k: case[k] for k in ("kind", "text", "envs", "expect", "conds", "features", "parts", "shrunk_from_items") if k in case}
+
+
+MAX_SHRINKS = 6
 
 
 def evaluate(ctx, cases):
@@ -651,7 +724,7 @@ def evaluate(ctx, cases):
         mo = model_out(c, answers[s:s + n])
         inp = public(c)
         feats = set(c["features"])
-        nontrivial = bool(feats & {"chain", "legacy", "quoted_arg"})
+        nontrivial = bool(feats & {"chain", "legacy", "quoted_arg", "enumerated_conds"})
         ctx.hist("kind=" + c["kind"])
         for f in c["features"]:
             ctx.hist("feature=" + f)
@@ -674,15 +747,118 @@ def evaluate(ctx, cases):
             ctx.disagree("actions", inp, io_, mo)
         elif mo_cmp["conds"] != io_["conds"]:
             ctx.disagree("condition_value", inp, io_, mo)
-        for clause, cls, i, detail in oracle(c, io_):
+        fails = list(oracle(c, io_))
+        if fails and c.get("parts") and ctx.histogram.get("shrunk", 0) < MAX_SHRINKS:
+            # report a reduced input: fewest items / one environment that still fail the same clause
+            ctx.hist("shrunk")
+            r = common.in_child(shrink, c, fails[0][0])
+            if r[0] == "ok" and r[1].get("shrunk_from_items"):
+                small = r[1]
+                r2 = common.in_child(run_impl_chunk, [small])
+                if r2[0] == "ok":
+                    s_io = r2[1][0]
+                    s_mo = model_out(small, ctx.lean.ask_many(model_requests(small)))
+                    for clause, cls, i, detail in oracle(small, s_io):
+                        ctx.hist("oracle_fail=" + clause)
+                        ctx.fail(clause, public(small), s_io, s_mo, note=detail + " [shrunk from %d items]" % small["shrunk_from_items"], finding=cls)
+                    continue
+        for clause, cls, i, detail in fails:
             ctx.hist("oracle_fail=" + clause)
             ctx.fail(clause, inp, io_, mo_cmp if not declined else mo, note=detail, finding=cls)
+
+
+def enum_chain_cases():
+    """Exhaustive small enumeration of block structures: chains of 1-3 branches, every branch and the else branch
+    empty or holding one command, else present or not, optionally a command before and after; conditions are
+    `FLAVOR == Fi` with distinct flavors, evaluated for every Fi and for an unmentioned flavor, so that every
+    position of the first true branch (and 'none true') occurs.  Plain layout."""
+    fl = ["Linux", "Darwin", "Linux64"]
+    out = []
+
+    def cmd(i):
+        return {"name": "envSet", "spelled": "envSet", "args": [{"v": "V%d" % i, "q": False}, {"v": str(i), "q": False}],
+                "seps": [", "], "pad": False, "gap": "", "semi": ""}
+    import itertools
+    for nb in (1, 2, 3):
+        for bodies in itertools.product([0, 1], repeat=nb):
+            for els in (None, 0, 1):
+                for outer in (False, True):
+                    k = 0
+                    items = []
+                    if outer:
+                        items.append({"k": "cmd", "c": cmd(90)})
+                    branches = []
+                    for b in range(nb):
+                        cs = []
+                        if bodies[b]:
+                            cs.append(cmd(k))
+                            k += 1
+                        branches.append({"cond": ["atom", "FLAVOR", False, fl[b]], "cmds": cs})
+                    e = None if els is None else ([cmd(50)] if els else [])
+                    items.append({"k": "chain", "branches": branches, "els": e})
+                    if outer:
+                        items.append({"k": "cmd", "c": cmd(91)})
+                    lines = []
+                    for it in items:
+                        if it["k"] == "cmd":
+                            lines.append("envSet(%s, %s)" % (it["c"]["args"][0]["v"], it["c"]["args"][1]["v"]))
+                            continue
+                        for i, br in enumerate(it["branches"]):
+                            lines.append(("} else if" if i else "if") + " (FLAVOR == %s) {" % br["cond"][3])
+                            lines += ["  envSet(%s, %s)" % (c["args"][0]["v"], c["args"][1]["v"]) for c in br["cmds"]]
+                        if it["els"] is not None:
+                            lines.append("} else {")
+                            lines += ["  envSet(%s, %s)" % (c["args"][0]["v"], c["args"][1]["v"]) for c in it["els"]]
+                        lines.append("}")
+                    envs = [{"flavor": f, "types": []} for f in fl[:nb] + ["SunOS"]]
+                    out.append({"kind": "table", "text": "\n".join(lines) + "\n", "envs": envs,
+                                "expect": [denote_table(items, v["flavor"], v["types"]) for v in envs], "conds": [],
+                                "features": sorted(table_features(items) | {"enumerated"})})
+    return out
+
+
+def enum_cond_cases(max_depth):
+    """Exhaustive enumeration of conditions up to a depth over 2 flavors and 2 types (atoms: FLAVOR/TYPE x ==/!= x
+    2 words), minimal parentheses, evaluated for 3 flavors x {no type, one, two}."""
+    atoms = [["atom", v, n, w] for v, ws in (("FLAVOR", ["Linux", "Darwin"]), ("TYPE", ["build", "exact"])) for n in (False, True) for w in ws]
+    levels = [atoms]
+    for _d in range(max_depth):
+        prev = [e for lv in levels for e in lv]
+        levels.append([[op, a, b] for op in ("and", "or") for a in prev for b in prev if cond_depth([op, a, b]) == len(levels)])
+    envs = [{"flavor": f, "types": t} for f in ("Linux", "Darwin", "SunOS") for t in ([], ["build"], ["build", "exact"])]
+
+    def txt(e, prec=0):
+        if e[0] == "atom":
+            return "%s %s %s" % (e[1], "!=" if e[2] else "==", e[3])
+        own = 1 if e[0] == "and" else 0
+        s_ = txt(e[1], own) + (" && " if own else " || ") + txt(e[2], own + 1)
+        return "(" + s_ + ")" if own < prec else s_
+    out = []
+    chunk = []
+    for e in [e for lv in levels for e in lv]:
+        chunk.append({"text": txt(e), "expect": [denote_cond(e, v["flavor"], v["types"]) for v in envs]})
+        if len(chunk) == 40:
+            out.append({"kind": "conds", "text": "", "envs": envs, "expect": None, "conds": chunk, "features": ["enumerated_conds"]})
+            chunk = []
+    if chunk:
+        out.append({"kind": "conds", "text": "", "envs": envs, "expect": None, "conds": chunk, "features": ["enumerated_conds"]})
+    return out
 
 
 def run(ctx):
     cases = corpus_cases()
     ctx.hist("corpus", len(cases))
     evaluate(ctx, cases)
+    # exhaustive small enumerations: block structures (both tiers), conditions (depth 1 quick, depth 2 thorough)
+    en = enum_chain_cases()
+    ctx.hist("enumerated_chains", len(en))
+    evaluate(ctx, en)
+    ec = enum_cond_cases(ctx.n(1, 2))
+    ctx.hist("enumerated_cond_batches", len(ec))
+    for i in range(0, len(ec), 200):
+        if ctx.out_of_time():
+            break
+        evaluate(ctx, ec[i:i + 200])
     n = ctx.n(3000, 100000)
     batch = 1500
     done = 0
